@@ -243,7 +243,14 @@ class Ctx:
         if not os.path.exists(p):
             return {}
         j = json.load(open(p))
-        return {(f["property"], f["key"]): f for f in j.get("findings", [])}
+        out = {(f["property"], f["key"]): f for f in j.get("findings", [])}
+        d = os.path.join(VERIF, "known_findings.d")
+        if os.path.isdir(d):
+            for fn in sorted(os.listdir(d)):
+                if fn.endswith(".json"):
+                    for f in json.load(open(os.path.join(d, fn))).get("findings", []):
+                        out[(f["property"], f["key"])] = f
+        return out
 
     def finish(self):
         known = self.known()
